@@ -16,7 +16,7 @@ namespace
         static void cw(void *p, const char *d, unsigned n) { self_of(p)->sink->on_write(d, n); }
         static void ce(void *p, const char *d, unsigned n) { self_of(p)->sink->on_execute(d, n); }
         static void cs(void *p, int sig) { self_of(p)->sink->on_signal(sig); }
-        void start(unsigned cap, unsigned h, TermSink *sk, const char *prompt, bool echo) override
+        void start(unsigned cap, unsigned h, TermSink *sk, const char *prompt, bool echo, unsigned flags = 0) override
         {
             sink = sk;
             vt.init(cap, h);
@@ -27,7 +27,7 @@ namespace
             {
                 vt.set_write_callback(igris::make_delegate(&TermXX::w, this));
                 vt.set_execute_callback(igris::make_delegate(&TermXX::e, this));
-                vt.set_signal_callback(igris::make_delegate(&TermXX::s, this));
+                if (!(flags & 1)) vt.set_signal_callback(igris::make_delegate(&TermXX::s, this));
             }
             else
             {
@@ -35,7 +35,7 @@ namespace
                 routed() = this;
                 vt.set_write_callback(igris::make_delegate(&TermXX::cw, ctx));
                 vt.set_execute_callback(igris::make_delegate(&TermXX::ce, ctx));
-                vt.set_signal_callback(igris::make_delegate(&TermXX::cs, ctx));
+                if (!(flags & 1)) vt.set_signal_callback(igris::make_delegate(&TermXX::cs, ctx));
             }
             vt.set_prompt(prompt);
             vt.set_echo(echo ? 1 : 0);
